@@ -91,21 +91,46 @@ class Ang:
                 if v.denominator_as_long() == 1 and abs(v.numerator_as_long()) <= 2:
                     return s * int(v.numerator_as_long())
             cx = Ctx.cur
-            c, sn = cx.fresh('c'), cx.fresh('s')
-            cx.assume(c * c + sn * sn == 1)
-            # t = 0 / 1 special values keep exactness at the end points
-            cx.assume(z3.Implies(o.e == 0, z3.And(c == 1, sn == 0)),
-                      z3.Implies(o.e == 1, z3.And(c == s.c, sn == s.s)))
+            # the same product (same angle, same factor) is the same angle: memoised per path
+            key = ('angmul', s.d.get_id(), s.c.get_id(), o.e.get_id())
+            hit = cx.sqrt_memo.get(key)
+            if hit is not None:
+                c, sn = hit[1]
+            else:
+                c, sn = cx.fresh('c'), cx.fresh('s')
+                cx.assume(c * c + sn * sn == 1)
+                # t = 0 / 1 special values keep exactness at the end points
+                cx.assume(z3.Implies(o.e == 0, z3.And(c == 1, sn == 0)),
+                          z3.Implies(o.e == 1, z3.And(c == s.c, sn == s.s)))
+                cx.sqrt_memo[key] = ((s.d, s.c, o.e), (c, sn))
             return Ang(s.d * o.e, c, sn, s.unit)
         return NotImplemented
     __rmul__ = __mul__
 
     def __truediv__(s, o):
-        if o == 180 and s._pi:
+        if isinstance(o, Ang):
+            if not SB(o.d != 0):
+                raise ZeroDivisionError('division by a zero angle')
+            return SR(s.d / o.d)
+        if isinstance(o, (int, float)) and o == 180 and s._pi:
             return Ang(s.d, s.c, s.s, 'rad')
         if isinstance(o, (int, float)) and o == 1:
             return s
+        if isinstance(o, (int, float)) and o != 0:
+            # a k-th part of the angle: fresh unit pair (k-fold angle formulas are not asserted)
+            cx = Ctx.cur
+            c, sn = cx.fresh('c'), cx.fresh('s')
+            cx.assume(c * c + sn * sn == 1)
+            return Ang(s.d / z3.RealVal(repr(float(o))), c, sn, s.unit)
         return NotImplemented
+
+    def __pow__(s, n):
+        # numeric value of the angle (radians when unit == 'rad') to an integer power
+        val = s.d * z3.RealVal(repr(math.pi)) / 180 if s.unit == 'rad' else s.d
+        return SR(val) ** n
+
+    def value(s):
+        return SR(s.d * z3.RealVal(repr(math.pi)) / 180 if s.unit == 'rad' else s.d)
 
     def _cmp(s, o, f):
         if isinstance(o, Ang):
@@ -186,8 +211,10 @@ def _sr_arccos(x):
     cx = Ctx.cur
     if not ((x >= -1) & (x <= 1)):
         raise NonFinite('arccos outside [-1,1]')
-    d, sn = cx.fresh('acos'), cx.fresh('sin')
-    cx.assume(d >= 0, d <= 180, sn >= 0, sn * sn == 1 - x.e * x.e,
+    from .symx import sqrt_atom
+    d = cx.fresh('acos')
+    sn = sqrt_atom(1 - x.e * x.e)        # sin(acos x) = sqrt(1 - x^2) >= 0 (perfect squares are resolved when enabled)
+    cx.assume(d >= 0, d <= 180,
               z3.Implies(x.e == 1, d == 0), z3.Implies(x.e == -1, d == 180),
               z3.Implies(z3.And(x.e < 1, x.e > -1), z3.And(d > 0, d < 180)),
               z3.Implies(x.e > 0, d < 90), z3.Implies(x.e < 0, d > 90),
